@@ -60,8 +60,8 @@ for pid in ALL:
         c = CLAIMED[pid]
         checks.append({
             "property_id": pid,
-            "quick_cmd": f"/verif/bin/gvc check --property {pid} --tier quick",
-            "thorough_cmd": f"/verif/bin/gvc check --property {pid} --tier thorough",
+            "quick_cmd": f"/verif/bin/gvc check --property {pid} --tier quick --level {c['level']}",
+            "thorough_cmd": f"/verif/bin/gvc check --property {pid} --tier thorough --level {c['level']}",
             "evidence_file": f"/verif/evidence/{pid}.json",
             "replay_cmd_template": "/verif/bin/gvc replay {path}",
             "engine": "gvc",
